@@ -81,7 +81,7 @@ class C12(P.Property):
         knobs = dict(scheme=rng.choice(C12_SCHEMES), init_state=rng.choice([0, 0, 1, 1, 2]),
                      net=rng.choice([dict(lo=0.001, hi=0.05), dict(lo=0.001, hi=0.05, seg=3), dict(lo=0.0005, hi=0.004),
                                      dict(lo=0.01, hi=0.3, tail=0.1, seg=2)]),
-                     skew=rng.choice([1.0, 1.0, 0.5, 2.0]), bufsize=rng.choice([8192, 8192, 16]))
+                     skew=rng.choice([1.0, 1.0, 0.5, 2.0]), bufsize=rng.choice([8192, 8192, 16]), gc_every=rng.choice([0, 0, 0, 1, 2]))
         return {"property": "C12", "seed": seed, "knobs": knobs, "steps": steps}
 
     # ------------------------------------------------------------------ execution
@@ -146,9 +146,10 @@ class C12(P.Property):
         out["base"] = len(run.events)
         actors = out["actors"] = {}
         sent = out["sent"] = []  # (event index, actor, kind)
-        for st in plan["steps"]:
+        for si, st in enumerate(plan["steps"]):
             n, do = st["actor"], st["do"]
             a = actors.get(n)
+            run.maybe_gc(si)
             try:
                 if do == "open":
                     if a is None:
@@ -175,7 +176,10 @@ class C12(P.Property):
         await asyncio.sleep(8)
         for a in actors.values():
             await a.close()
-        await asyncio.sleep(8)
+        await asyncio.sleep(4)
+        if knobs.get("gc_every"):
+            world.gc_point()  # everything is closed: whatever finalizers exist run now, before the probe looks
+        await asyncio.sleep(4)
         out["end"] = len(run.events)
         # ---- probe
         pr = out["probe"] = fe.RawActor(run, "probe", SID)
@@ -352,7 +356,7 @@ class C12(P.Property):
     # ------------------------------------------------------------------ minimisation
     def simplifications(self, plan):
         k = plan["knobs"]
-        for key, val in (("skew", 1.0), ("bufsize", 8192), ("scheme", "CJJ14.PiBas"), ("net", dict(lo=0.01, hi=0.01))):
+        for key, val in (("skew", 1.0), ("bufsize", 8192), ("scheme", "CJJ14.PiBas"), ("net", dict(lo=0.01, hi=0.01)), ("gc_every", 0)):
             if k.get(key) != val:
                 yield dict(plan, knobs=dict(k, **{key: val}))
         if k["init_state"] > 0:
